@@ -44,6 +44,11 @@ func nullArrays(v any) string {
 		a, isArr := x.([]any)
 		return a, isArr
 	}
+	for _, k := range []string{"Total", "Scale", "Type", "Unit"} {
+		if v, present := top[k]; !present || v == nil {
+			return k
+		}
+	}
 	stacks, ok := arr(top, "Stacks")
 	if !ok {
 		return "Stacks"
@@ -60,6 +65,11 @@ func nullArrays(v any) string {
 		if _, ok := arr(m, "Sources"); !ok {
 			return "Stack.Sources"
 		}
+		// the page's script reads the value of every stack: a missing member is undefined there, and
+		// every sum it enters becomes NaN
+		if v, present := m["Value"]; !present || v == nil {
+			return "Stack.Value"
+		}
 	}
 	for _, s := range sources {
 		m, isObj := s.(map[string]any)
@@ -71,6 +81,11 @@ func nullArrays(v any) string {
 		}
 		if _, ok := arr(m, "Display"); !ok {
 			return "Source.Display"
+		}
+		for _, k := range []string{"FullName", "FileName", "UniqueName", "Inlined", "Self", "Color"} {
+			if v, present := m[k]; !present || v == nil {
+				return "Source." + k
+			}
 		}
 	}
 	return ""
